@@ -189,6 +189,7 @@ func (m *MTProto) makeRequest(data tl.Object, expectedTypes ...reflect.Type) (an
 	}
 
 	response := <-resp
+	verifGate("call.woke", data, response)
 
 	switch r := response.(type) {
 	case *objects.RpcError:
@@ -287,6 +288,7 @@ func (m *MTProto) readMsg() error {
 	}
 
 	response, err := m.transport.ReadMsg()
+	verifGate("loop.read", response, err)
 	if err != nil {
 		if e, ok := err.(transport.ErrCode); ok {
 			return &ErrResponseCode{Code: int(e)}
@@ -347,6 +349,7 @@ messageTypeSwitching:
 		m.mutex.Lock()
 		for _, k := range m.responseChannels.Keys() {
 			v, _ := m.responseChannels.Get(k)
+			verifGate("loop.notify", k)
 			v <- &errorSessionConfigsChanged{}
 		}
 		m.mutex.Unlock()
